@@ -331,3 +331,48 @@ func VerifFeatures(ueip, endMarker bool) []uint8 {
 }
 
 func VerifIP2Int(ip net.IP) uint32 { return ip2int(ip) }
+
+// ---- observation of a running agent (used by the harness child process) ----
+
+// VerifStats reports bookkeeping of a running agent: free/held UE addresses, TEIDs in use,
+// associations, stored sessions, datapath connectivity.
+func (p *PFCPIface) VerifStats() map[string]int {
+	p.mu.Lock()
+	defer p.mu.Unlock()
+
+	st := map[string]int{"pool_free": -1, "pool_held": -1, "teid_used": -1, "conns": 0, "sessions": 0, "connected": 0}
+	if p.upf == nil {
+		return st
+	}
+
+	if p.upf.ippool != nil {
+		p.upf.ippool.mu.Lock()
+		st["pool_free"] = len(p.upf.ippool.freePool)
+		st["pool_held"] = len(p.upf.ippool.inventory)
+		p.upf.ippool.mu.Unlock()
+	}
+
+	if g := p.upf.fteidGenerator; g != nil {
+		g.lock.Lock()
+		st["teid_used"] = len(g.usedMap)
+		g.lock.Unlock()
+	}
+
+	if p.upf.isConnected() {
+		st["connected"] = 1
+	}
+
+	if p.node != nil {
+		p.node.pConns.Range(func(_, v interface{}) bool {
+			st["conns"]++
+			st["sessions"] += len(v.(*PFCPConn).store.GetAllSessions())
+
+			return true
+		})
+	}
+
+	return st
+}
+
+// VerifNotify injects a downlink-data report for fseid as the datapath would.
+func (p *PFCPIface) VerifNotify(fseid uint64) { p.upf.reportNotifyChan <- fseid }
